@@ -257,7 +257,7 @@ func RunSaga(c *core.Ctx) {
 		}
 		return false
 	}}
-	args := []interface{}{hook, saga.Gamma{Value: gamma}, saga.Epsilon{Value: eps}, saga.MaxIterations{Value: maxIt}, saga.Seed{Value: seed}}
+	args := []interface{}{hook, saga.Gamma{Value: gamma}, saga.Epsilon{Value: eps}, saga.MaxIterations{Value: maxIt}, saga.Seed{Value: seed}, &saga.InSitu{}}
 	switch reg {
 	case 0:
 		args = append(args, saga.ProximalOperator{Value: &identityProx{}})
